@@ -49,6 +49,62 @@ def tv(ck, runs, first=0, tag="gen"):
     return evs
 
 
+def schedules(ck, cfgs):
+    """Spec -> implementation with the SCHEDULE as the case: TLC enumerates every schedule of one step
+    (MC_GenSchedule: start / end order of the calls, which fail, serial and parallel), the harness's child
+    maker forces each on the real step, and the recorded step is validated by Trace_Generation."""
+    scheds, seen = [], set()
+    for cfg in cfgs:
+        res = ck.tlc_model("ec/MC_GenSchedule", cfg, workers=4, timeout=1500, keep_tags=("SCHED",))
+        for d in res.tagged.get("SCHED", []):
+            k = (d["mode"], d["n"], json.dumps(d["events"]))
+            if k not in seen:
+                seen.add(k)
+                scheds.append(d)
+    spath = os.path.join(ck.work, "gen-schedules.ndjson")
+    vlib.write_ndjson(spath, scheds)
+    path = os.path.join(ck.work, "gensched-trace.ndjson")
+    ck.harness(["gen-sched", "--schedules", spath, "--first-run", 1000000, "--out", path], timeout=3000)
+    ck.validate_runs("ec/Trace_Generation", "ec/Trace_Generation.cfg", path, sig, what,
+                     regen=lambda ev: {"schedules": True, "run": ev.get("run")}, timeout=3000)
+    # which schedules did the real step follow?  (observed start / end order == the schedule, possibly
+    # followed by optional calls the schedule did not have)
+    evs = vlib.read_ndjson(path)
+    runs = {}
+    for e in evs:
+        runs.setdefault(e.get("run"), []).append(e)
+    exact = extras = other = gave_up = 0
+    realised = set()
+    by_overlap = {}
+    for r, es in runs.items():
+        si = es[0].get("sched")
+        if si is None or es[0].get("ev") != "reset":
+            continue
+        want = [[k, c] for k, c in scheds[si]["events"]]
+        got = [["c", e["call"]] if e["ev"] == "start" else [("ok" if e["ok"] else "fail"), e["call"]]
+               for e in es if e["ev"] in ("start", "end")]
+        g = any(e.get("gave_up") for e in es if e["ev"] == "return")
+        gave_up += g
+        o = by_overlap.setdefault(f"{scheds[si]['mode']}/overlap{scheds[si]['overlap']}", [0, 0])
+        o[1] += 1
+        if got == want:
+            exact += 1
+            realised.add(si)
+            o[0] += 1
+        elif got[:len(want)] == want:
+            extras += 1
+            realised.add(si)
+            o[0] += 1
+        else:
+            other += 1
+    c = ck.cov["conformance"]
+    c["forced_schedules"] = {"enumerated_by_tlc": len(scheds), "runs": len(runs), "followed_exactly": exact,
+                             "followed_then_optional_calls": extras, "not_followed": other, "given_up_waiting": gave_up,
+                             "distinct_schedules_realised": len(realised),
+                             "followed_per_mode_and_overlap": {k: f"{v[0]}/{v[1]}" for k, v in sorted(by_overlap.items())}}
+    return len(evs)
+
+
 def run(ck):
     q = ck.tier == "quick"
     cfg = "ec/MC_Generation_quick.cfg" if q else "ec/MC_Generation_thorough.cfg"
@@ -73,6 +129,9 @@ def run(ck):
                 modes[k] = modes.get(k, 0) + 1
         if sh == 0:
             samples = evs[:4]
+    total += schedules(ck, ["ec/MC_GenSchedule_q0.cfg", "ec/MC_GenSchedule_q1.cfg", "ec/MC_GenSchedule_q2.cfg",
+                            "ec/MC_GenSchedule_q3.cfg"]
+                       + (["ec/MC_GenSchedule_q4.cfg"] if q else ["ec/MC_GenSchedule_t4.cfg", "ec/MC_GenSchedule_t5.cfg"]))
     evo = evocheck.run(ck, 500 if q else 20000)
     total += len(evo)
     ck.cov["evaluations"] = total
@@ -90,8 +149,10 @@ def run(ck):
                              "FailureAtomic NoPartialCommit ErrIffFailure SerialDiscipline StepsTerminate); "
                              "vh gen-trace + tlc Trace_Generation")
     ck.assumptions += [
-        "real rayon schedules are sampled (pools of 1..16 threads, sleeps/yields inside the child maker), "
-        "not enumerated; all interleavings are enumerated on the model",
+        "all interleavings are enumerated on the model; on the code every schedule of <= 4 (thorough: 5) children that "
+        "TLC enumerates (start / end order of the calls, which of them fail) is FORCED by the harness's child maker "
+        "(forced_schedules in the evidence says how many the real step followed; one it did not follow is no verdict), "
+        "and beyond that real rayon schedules are sampled (pools of 1..16 threads, sleeps/yields inside the child maker)",
         "L6: after a failure in parallel mode later children may or may not run; any failed child's error may be returned",
         "L8: the order of children in the new population is not compared",
         "'own live randomness' is observed as: the 64-bit words drawn by the children of one run are pairwise distinct",
@@ -100,6 +161,12 @@ def run(ck):
 
 def replay(ck, obj):
     r = obj["regen"]
+    if r.get("schedules"):
+        q = ck.tier == "quick"
+        schedules(ck, ["ec/MC_GenSchedule_q0.cfg", "ec/MC_GenSchedule_q1.cfg", "ec/MC_GenSchedule_q2.cfg",
+                       "ec/MC_GenSchedule_q3.cfg"]
+                  + (["ec/MC_GenSchedule_q4.cfg"] if q else ["ec/MC_GenSchedule_t4.cfg", "ec/MC_GenSchedule_t5.cfg"]))
+        return
     if r.get("evolution"):
         evocheck.tv(ck, 1, first=r["run"], tag="one")
         return
